@@ -68,14 +68,15 @@ type Stats struct {
 }
 
 type rpcState struct {
-	r        *RPC
-	ctx      context.Context
-	cancel   context.CancelFunc
-	baseCtx  context.Context
-	deadline time.Time
-	started  bool
-	nClient  int // client goroutines still running
-	clientEnded bool
+	r                    *RPC
+	ctx                  context.Context
+	cancel               context.CancelFunc
+	baseCtx              context.Context
+	deadline             time.Time
+	started              bool
+	nClient              int // client goroutines still running
+	clientEnded          bool
+	stubDone, stubFailed bool // generated-stub phase of a server-stream call (see stubPhase)
 
 	ctxDoneSeq   int    // history seq at which the caller's context was ended (0 = not)
 	ctxCause     string // cancel | deadline | harness | end
@@ -88,52 +89,52 @@ type rpcState struct {
 	handlerDone    int
 	cutSeq         int // network cut affecting this rpc's transport
 
-	sentObjs  []any // client-side message objects handed to the library
-	recvObjs  []any
-	hSentObjs []any
-	hRecvObjs []any
-	hdrOpts   []*mdHolder
-	tlrOpts   []*mdHolder
-	peerOpt   *peerHolder
-	stream    any
-	ctxVals   []ctxVal
+	sentObjs   []any // client-side message objects handed to the library
+	recvObjs   []any
+	hSentObjs  []any
+	hRecvObjs  []any
+	hdrOpts    []*mdHolder
+	tlrOpts    []*mdHolder
+	peerOpt    *peerHolder
+	stream     any
+	ctxVals    []ctxVal
 	mutatedObj map[any]bool
 	bpReported bool
-	outMD     metadata.MD
-	nestedIn  *rpcState
+	outMD      metadata.MD
+	nestedIn   *rpcState
 }
 
 // Sim is one simulated run.
 type Sim struct {
-	mu    sync.Mutex
-	K     *simrt.Kernel
-	prog  *Program
-	tape  *Tape
-	env   *Env
-	t0    time.Time
-	step  int
-	seq   int
-	hist  []*Event
-	trace []string
-	keepTrace bool
-	conns []*connPair
-	rpcs  []*rpcState
-	stats Stats
-	instants []time.Time
-	faults   []Fault // pending, sorted by step
-	prio     map[string]int
-	prioChange []int
-	last     string
-	closure  *closureCheck
-	viols    []Violation
-	ended    bool
-	liveActors int
+	mu           sync.Mutex
+	K            *simrt.Kernel
+	prog         *Program
+	tape         *Tape
+	env          *Env
+	t0           time.Time
+	step         int
+	seq          int
+	hist         []*Event
+	trace        []string
+	keepTrace    bool
+	conns        []*connPair
+	rpcs         []*rpcState
+	stats        Stats
+	instants     []time.Time
+	faults       []Fault // pending, sorted by step
+	prio         map[string]int
+	prioChange   []int
+	last         string
+	closure      *closureCheck
+	viols        []Violation
+	ended        bool
+	liveActors   int
 	handlersLive int
-	pendingOps map[string]*Event // actor key -> op in progress
-	polRng   *rand.Rand
-	hookStep func(s *Sim)
-	endCh    chan struct{}
-	waiting  []*rpcState // calls that start once an earlier call's client side has finished
+	pendingOps   map[string]*Event // actor key -> op in progress
+	polRng       *rand.Rand
+	hookStep     func(s *Sim)
+	endCh        chan struct{}
+	waiting      []*rpcState // calls that start once an earlier call's client side has finished
 }
 
 type closureCheck struct {
@@ -548,6 +549,23 @@ func (s *Sim) resolveBlocked() bool {
 			}
 			continue
 		}
+		if b.ev.Side == 'c' && b.ev.Op == "header" && !ctxDone && !hDone && s.gotResponseMessage(rs) {
+			// headers are final once a response message has arrived: Header()
+			// has nothing to wait for
+			s.violate("C03", fmt.Sprintf("C03|%s|%s|header-call-blocks-after-first-message", rs.r.Transport, kindNames[rs.r.Kind]), rs.r.ID,
+				"rpc%d %s %s: the client has received a response message, yet its Header() call (seq %d) blocks until the handler produces something more; nothing else can happen (handler and client wait for each other)", rs.r.ID, rs.r.Transport, kindNames[rs.r.Kind], b.ev.Seq)
+			if s.handlerInLibrary(rs) {
+				s.violate("C05", fmt.Sprintf("C05|%s|%s|blocked-c-header|after-first-message", rs.r.Transport, kindNames[rs.r.Kind]), rs.r.ID,
+					"rpc%d %s %s: Header() (seq %d) blocks after a response message was received while the handler waits for the client's next request: a deadlock made by the library", rs.r.ID, rs.r.Transport, kindNames[rs.r.Kind], b.ev.Seq)
+			}
+		}
+		if b.ev.Side == 'c' && b.ev.Op == "header" && !ctxDone && !hDone && !s.gotResponseMessage(rs) && s.headersSentExplicitly(rs) && s.handlerInLibrary(rs) {
+			// the handler's SendHeader has returned nil: the headers are on
+			// their way as far as the handler can tell, and it may now wait for
+			// the client, which waits for those headers
+			s.violate("C05", fmt.Sprintf("C05|%s|%s|blocked-c-header|after-SendHeader", rs.r.Transport, kindNames[rs.r.Kind]), rs.r.ID,
+				"rpc%d %s %s: the handler's SendHeader returned nil, yet the client's Header() (seq %d) still blocks and nothing else can happen (handler and client wait for each other): a deadlock made by the library", rs.r.ID, rs.r.Transport, kindNames[rs.r.Kind], b.ev.Seq)
+		}
 		if ctxDone || (hDone && b.ev.Side == 'c') {
 			why := "context done"
 			if !ctxDone {
@@ -575,6 +593,41 @@ func (s *Sim) resolveBlocked() bool {
 		}
 	}
 	return progressed
+}
+
+func (s *Sim) gotResponseMessage(rs *rpcState) bool {
+	s.mu.Lock()
+	defer s.mu.Unlock()
+	for _, ev := range s.hist {
+		if ev.RPC == rs.r.ID && ev.Side == 'c' && ev.Op == "recv" && ev.RSeq != 0 && ev.Err.IsNil() && ev.GotMsg != nil {
+			return true
+		}
+	}
+	return false
+}
+
+// handlerInLibrary: the handler of this call is itself blocked inside a
+// stream operation (waiting for the client), not in something of its own.
+func (s *Sim) handlerInLibrary(rs *rpcState) bool {
+	s.mu.Lock()
+	defer s.mu.Unlock()
+	for _, ev := range s.pendingOps {
+		if ev.RPC == rs.r.ID && ev.Side == 'h' && (ev.Op == "recv" || ev.Op == "send") {
+			return true
+		}
+	}
+	return false
+}
+
+func (s *Sim) headersSentExplicitly(rs *rpcState) bool {
+	s.mu.Lock()
+	defer s.mu.Unlock()
+	for _, ev := range s.hist {
+		if ev.RPC == rs.r.ID && ev.Side == 'h' && ev.Op == "sendhdr" && ev.RSeq != 0 && ev.Err.IsNil() {
+			return true
+		}
+	}
+	return false
 }
 
 func (s *Sim) noteStuckHandler(rs *rpcState, ev *Event) {
